@@ -237,7 +237,8 @@ Theorem C15_tip_plan : forall c t, ctx_ok c t ->
 Proof. exact tip_plan_spec. Qed.
 
 (** … and when its query touches the canonical stored queue it succeeds, keeps the queue
-    canonical, marks nothing Scanned, and un-scans nothing at or below the max scanned height. *)
+    canonical, marks nothing Scanned, un-scans nothing at or below the max scanned height, and the
+    heights that are Verify afterwards are those before plus exactly the documented Verify range. *)
 Theorem C15_update_chain_tip : forall c q t qs qe entries,
   chain q -> ctx_ok c t -> tip_plan c t = Ok (Some (qs, qe, entries)) -> touches q qs qe ->
   exists q', update_chain_tip c q t = Ok q' /\ chain q' /\
@@ -245,8 +246,25 @@ Theorem C15_update_chain_tip : forall c q t qs qe entries,
     (forall h, scanned_at q h -> (forall ms, max_scanned c = Some ms -> h <= ms) -> scanned_at q' h) /\
     (forall h, rows_at (map row_of q) h <> None -> rows_at (map row_of q') h <> None) /\
     (forall e h, In e entries -> in_range (rs e) (re e) h = true -> rows_at (map row_of q') h <> None) /\
-    (birthday c <> None -> forall h, rows_at (map row_of q') h = Some Ignored -> rows_at (map row_of q) h = Some Ignored).
+    (birthday c <> None -> forall h, rows_at (map row_of q') h = Some Ignored -> rows_at (map row_of q) h = Some Ignored) /\
+    (forall h, rows_at (map row_of q') h = Some Verify <->
+               rows_at (map row_of q) h = Some Verify \/
+               exists vs ve, expected_verify c t = Some (vs, ve) /\ vs <= h < ve).
 Proof. exact update_chain_tip_spec. Qed.
+
+(** The plan's last entry is the Verify range exactly when the documented rule ([expected_verify]:
+    shard metadata below the new chain end, max scanned block at least PRUNING_DEPTH below the new
+    tip: the VERIFY_LOOKAHEAD blocks above it, limited to the stable region) asks for one. *)
+Theorem C15_tip_plan_verify : forall c t, ctx_ok c t ->
+  exists p, tip_plan c t = Ok p /\
+    match p with
+    | None => expected_verify c t = None
+    | Some (_, _, entries) =>
+        exists es l, entries = es ++ [l] /\
+          (rp l = Verify -> expected_verify c t = Some (rs l, re l)) /\
+          (rp l <> Verify -> expected_verify c t = None)
+    end.
+Proof. exact tip_plan_verify. Qed.
 
 (** Rewind: trimming keeps the queue canonical and forgets exactly the heights above. *)
 Theorem C15_trim : forall q mh, chain q -> 0 <= mh ->
